@@ -88,6 +88,12 @@
 ; @lit lit.invoke "invoke"
 (declare-const lit.notify Str)
 (declare-const lit.invoke Str)
+; @lit lit.resonate_timeout "resonate:timeout"
+; @lit lit.true "true"
+; @lit lit.empty ""
+(declare-const lit.resonate_timeout Str)
+(declare-const lit.true Str)
+(declare-const lit.empty Str)
 ; NULL-able blob columns as client data: absent == empty
 (define-fun hdrs ((b OptBytes)) SMap (ite (is-bnone b) smap.empty (jsonmap (bval b))))
 (define-fun data ((b OptBytes)) Bytes (ite (is-bnone b) bytes.empty (bval b)))
